@@ -12,6 +12,10 @@ and invalid) over seven association shapes, run on a real xtuml.MetaModel.
      unrelate of the same pair restores the deep dump.
   K  outcome, pools, both link directions (ordered partner lists) and referential reads after every
      step equal lean/PyxModel/Meta.lean run by the driver.
+Construction routes: the API (define_class / define_association / formalize / new / relate) and, in the family
+`loaded`, xtuml.ModelLoader: the population after a history prefix is written as SQL text (meta_common.Model.from_sql);
+D is checked on the loaded state and after every later op, K compares the loaded state with the model's state after
+the prefix and then step by step.
 Domain of the THEOREMS: relate/unrelate arguments are live instances; delete is applied to live and to already
 deleted instances (the repeated delete of the statement).  Histories that hand a DELETED instance to relate /
 unrelate (use-after-delete) are run as the family `uad`: the real code accepts such a relate and the deleted
@@ -30,7 +34,9 @@ RULE = ('per association shape (1:1, 1:M, M:1 unconditional, reflexive with phra
         'a prelude creating 2 instances per class, then exhaustive op sequences (quick: length 2, thorough: length 3) '
         'over the full alphabet of relate/unrelate on every ordered instance pair with every phrase spelling incl. '
         'unknown rel ids/phrases, delete of every instance and new; plus random histories (length 30-200 quick, up to '
-        '1500 thorough) with pools growing to 3-6 per class. Non-trivial: at least one accepted and one rejected '
+        '1500 thorough) with pools growing to 3-6 per class; family `loaded`: random histories whose first k ops (the creations '
+        'and the links that hold after them) are written as SQL text and built by xtuml.ModelLoader, the rest runs on the '
+        'loader-built model. Non-trivial: at least one accepted and one rejected '
         'relate or unrelate, or a delete of a linked instance; distinct = distinct (shape, history)')
 EXHAUSTIVE = {'quick': True, 'thorough': True}
 ASSUMPTIONS = ['the theorems about liveness assume relate/unrelate are called with live instances; use-after-delete histories are '
@@ -80,6 +86,47 @@ def in_domain(ops):
     return True
 
 
+def _random_history(r, schema, maxlen):
+    """prelude + a random history of new / delete / relate / unrelate (valid and invalid) over the schema"""
+    ncls = len(schema['classes'])
+    rels = sorted(set(a['rel'] for a in schema['assocs']))
+    phrases = sorted(set([''] + [a['sphrase'] for a in schema['assocs']] + [a['tphrase'] for a in schema['assocs']]))
+    ops = prelude(schema, r.randint(1, 3))
+    kinds = [k for k in range(ncls) for _ in range(len(ops) // ncls)]
+    dead = set()
+    length = r.randint(30, maxlen)
+    for _ in range(length):
+        c = r.random()
+        livei = [j for j in range(len(kinds)) if j not in dead]
+        if c < 0.08 or len(livei) < 2:
+            if len(kinds) < 6 * ncls:
+                k = r.randrange(ncls)
+                ops.append(['new', k])
+                kinds.append(k)
+            continue
+        if c < 0.16:
+            x = r.randrange(len(kinds))          # live or already deleted (repeated delete)
+            ops.append(['delete', x])
+            dead.add(x)
+            continue
+        x, y = r.choice(livei), r.choice(livei)
+        # bias towards well-typed pairs
+        if r.random() < 0.7:
+            a = r.choice(schema['assocs'])
+            xs = [j for j in livei if kinds[j] == a['src']]
+            ys = [j for j in livei if kinds[j] == a['tgt']]
+            if xs and ys:
+                x, y = r.choice(xs), r.choice(ys)
+                if r.random() < 0.5:
+                    x, y = y, x
+        rel = r.choice(rels) if r.random() < 0.95 else 'R77'
+        ph = r.choice(phrases) if r.random() < 0.95 else 'bogus'
+        ops.append([r.choice(['relate', 'relate', 'unrelate']), x, y, rel, ph])
+        if r.random() < 0.25 and ops[-1][0] == 'relate':
+            ops.append(['unrelate', x, y, rel, ph])
+    return ops
+
+
 def generate(ctx):
     """histories of the domain; the ones that use an instance after its deletion form the family `uad`
     (a bounded sample of them): there the real code accepts the relate and the deleted instance becomes
@@ -113,44 +160,26 @@ def _generate(ctx):
     for i in range(n):
         r = rng.fork(i)
         name = r.choice(sorted(mc.SHAPES))
+        yield {'shape': name, 'ops': _random_history(r, mc.SHAPES[name], ctx.pick(200, 1500)), 'fam': 'random'}
+    # family `loaded` (construction route): the state after a prefix of the history is built by xtuml.ModelLoader from SQL
+    # text (CREATE TABLE / CREATE ROP / INSERT with explicit ids and referential values) instead of through the API; the
+    # rest of the history runs on that loader-built model under the same D and K
+    lr = ctx.rng.fork('loaded')
+    for i in range(ctx.pick(400, 6000)):
+        r = lr.fork(i)
+        name = r.choice(sorted(mc.SHAPES))
         schema = mc.SHAPES[name]
-        ncls = len(schema['classes'])
-        rels = sorted(set(a['rel'] for a in schema['assocs']))
-        phrases = sorted(set([''] + [a['sphrase'] for a in schema['assocs']] + [a['tphrase'] for a in schema['assocs']]))
-        ops = prelude(schema, r.randint(1, 3))
-        kinds = [k for k in range(ncls) for _ in range(len(ops) // ncls)]
-        dead = set()
-        length = r.randint(30, ctx.pick(200, 1500))
-        for _ in range(length):
-            c = r.random()
-            livei = [j for j in range(len(kinds)) if j not in dead]
-            if c < 0.08 or len(livei) < 2:
-                if len(kinds) < 6 * ncls:
-                    k = r.randrange(ncls)
-                    ops.append(['new', k])
-                    kinds.append(k)
-                continue
-            if c < 0.16:
-                x = r.randrange(len(kinds))          # live or already deleted (repeated delete)
-                ops.append(['delete', x])
-                dead.add(x)
-                continue
-            x, y = r.choice(livei), r.choice(livei)
-            # bias towards well-typed pairs
-            if r.random() < 0.7:
-                a = r.choice(schema['assocs'])
-                xs = [j for j in livei if kinds[j] == a['src']]
-                ys = [j for j in livei if kinds[j] == a['tgt']]
-                if xs and ys:
-                    x, y = r.choice(xs), r.choice(ys)
-                    if r.random() < 0.5:
-                        x, y = y, x
-            rel = r.choice(rels) if r.random() < 0.95 else 'R77'
-            ph = r.choice(phrases) if r.random() < 0.95 else 'bogus'
-            ops.append([r.choice(['relate', 'relate', 'unrelate']), x, y, rel, ph])
-            if r.random() < 0.25 and ops[-1][0] == 'relate':
-                ops.append(['unrelate', x, y, rel, ph])
-        yield {'shape': name, 'ops': ops, 'fam': 'random'}
+        ops = _random_history(r, schema, ctx.pick(60, 300))
+        k = r.randint(len(schema['classes']), max(len(schema['classes']), min(len(ops), 80)))
+        pre = mc.canonical_prefix(schema, ops[:k])
+        rest, dead = [], set()
+        for o in ops[k:]:
+            if o[0] == 'delete':
+                dead.add(o[1])
+            elif o[0] in ('relate', 'unrelate') and (o[1] in dead or o[2] in dead):
+                continue                 # use-after-delete has its own family
+            rest.append(o)
+        yield {'shape': name, 'ops': pre + rest, 'fam': 'loaded', 'route': 'sql', 'prefix': len(pre)}
     # D-only family `newref`: instances created WITH referential values (MetaClass.new relates them one association after
     # the other); when a later one is refused the instance and the links made so far remain — and must remain LIVE
     rr = ctx.rng.fork('newref')
@@ -308,7 +337,8 @@ def run_impl(case):
     if case.get('fam') == 'newref':
         return _run_newref(case)
     schema = mc.SHAPES[case['shape']]
-    model = mc.Model(schema)
+    k0 = case['prefix'] if case.get('route') == 'sql' else 0
+    model = mc.Model.from_sql(schema, case['ops'][:k0]) if k0 else mc.Model(schema)
     orc = Oracle(schema)
     obs = []
     fails = []
@@ -321,42 +351,56 @@ def run_impl(case):
 
     def fail(sig, what, step):
         if len(fails) < 3:
-            fails.append({'sig': sig, 'what': '%s (shape %s, after %d ops: %s)' % (what, case['shape'], step + 1,
-                                                                                   case['ops'][:step + 1][-6:])})
+            fails.append({'sig': sig, 'what': '%s (shape %s, after %d ops: %s)%s' % (
+                what, case['shape'], step + 1, case['ops'][:step + 1][-6:],
+                '; the first %d ops were LOADED FROM TEXT: %s' % (k0, ' '.join(model.sql.split('\n'))) if k0 else '')})
 
+    if k0:
+        # the loader-built state must be the state the prefix reaches through the API: the oracle replays the prefix, the
+        # state predicates below are checked on the loaded state before the first op, and the state is the model's
+        # observation after the last prefix op (K)
+        for op in case['ops'][:k0]:
+            if orc.expected(op) != 'ok':
+                raise ValueError('prefix op %r is not an accepted one' % (op,))
     for step, op in enumerate(case['ops']):
-        before = model.deep_dump()
-        if op[0] == 'delete' and orc.live[op[1]]:
-            deleted_linked |= any(op[1] in p for ps in orc.pairs for p in ps)
-        related_before = None
-        if op[0] == 'relate':
-            cands = orc.resolve(orc.kinds[op[1]], orc.kinds[op[2]], op[3], op[4])
-            if cands:
-                i, d = cands[0]
-                pr = (op[1], op[2]) if d == 'fwd' else (op[2], op[1])
-                related_before = pr in orc.pairs[i]
-        want = orc.expected(op)
-        got = model.apply(op)
-        after = model.deep_dump()
-        stats['op_' + op[0]] = stats.get('op_' + op[0], 0) + 1
-        stats['out_' + str(got)] = stats.get('out_' + str(got), 0) + 1
-        if str(got) != want:
-            fail('outcome', '%s gave %s, the statement requires %s' % (op, got, want), step)
-        if op[0] == 'relate' and str(got) == 'ok':
-            revived.update(i for i in (op[1], op[2]) if not orc.live[i])
-        if str(got) != 'ok':
-            rejected += 1
-            if after != before:
-                fail('rejected-not-atomic', 'rejected %s (%s) changed the model' % (op, got), step)
-        elif op[0] in ('relate', 'unrelate'):
-            accepted += 1
-        if op[0] == 'relate' and str(got) == 'ok' and related_before and after != before:
-            fail('relate-not-idempotent', 'relating an already related pair %s changed the model' % (op,), step)
-        # undo: successful relate of a new pair immediately followed by the matching successful unrelate
-        if pending_undo is not None and op[0] == 'unrelate' and str(got) == 'ok' and op[1:] == pending_undo[1][1:]:
-            if after != pending_undo[0]:
-                fail('unrelate-does-not-undo', 'relate then unrelate of %s did not restore the model' % (op[1:],), step)
-        pending_undo = (before, op) if (op[0] == 'relate' and str(got) == 'ok' and related_before is False) else None
+        if step < k0 - 1:
+            continue
+        if step == k0 - 1:
+            got, want = Sym('ok'), 'ok'          # the loader-built state, observed where the API route is after the prefix
+            stats['loaded_links'] = sum(len(ps) for ps in orc.pairs)
+        else:
+            before = model.deep_dump()
+            if op[0] == 'delete' and orc.live[op[1]]:
+                deleted_linked |= any(op[1] in p for ps in orc.pairs for p in ps)
+            related_before = None
+            if op[0] == 'relate':
+                cands = orc.resolve(orc.kinds[op[1]], orc.kinds[op[2]], op[3], op[4])
+                if cands:
+                    i, d = cands[0]
+                    pr = (op[1], op[2]) if d == 'fwd' else (op[2], op[1])
+                    related_before = pr in orc.pairs[i]
+            want = orc.expected(op)
+            got = model.apply(op)
+            after = model.deep_dump()
+            stats['op_' + op[0]] = stats.get('op_' + op[0], 0) + 1
+            stats['out_' + str(got)] = stats.get('out_' + str(got), 0) + 1
+            if str(got) != want:
+                fail('outcome', '%s gave %s, the statement requires %s' % (op, got, want), step)
+            if op[0] == 'relate' and str(got) == 'ok':
+                revived.update(i for i in (op[1], op[2]) if not orc.live[i])
+            if str(got) != 'ok':
+                rejected += 1
+                if after != before:
+                    fail('rejected-not-atomic', 'rejected %s (%s) changed the model' % (op, got), step)
+            elif op[0] in ('relate', 'unrelate'):
+                accepted += 1
+            if op[0] == 'relate' and str(got) == 'ok' and related_before and after != before:
+                fail('relate-not-idempotent', 'relating an already related pair %s changed the model' % (op,), step)
+            # undo: successful relate of a new pair immediately followed by the matching successful unrelate
+            if pending_undo is not None and op[0] == 'unrelate' and str(got) == 'ok' and op[1:] == pending_undo[1][1:]:
+                if after != pending_undo[0]:
+                    fail('unrelate-does-not-undo', 'relate then unrelate of %s did not restore the model' % (op[1:],), step)
+            pending_undo = (before, op) if (op[0] == 'relate' and str(got) == 'ok' and related_before is False) else None
         # state predicates on the implementation's own links
         links = model.links()
         pools = model.pools()
@@ -386,6 +430,11 @@ def run_impl(case):
             if s_pairs != set(orc.pairs[ai]) and str(got) == want:
                 fail('links-differ', 'association %d holds %s, the relational reading gives %s' % (
                     ai, sorted(s_pairs), sorted(orc.pairs[ai])), step)
+        # no instance keeps a value of its own under a referential attribute (it would be read under other spellings of
+        # the name and by where_eq, beside the linked identifying value)
+        for (i, key, v) in model.ref_copies():
+            fail('referential-copy-in-dict', 'instance %d keeps %r = %r in its own dictionary although the attribute '
+                 'is referential' % (i, key, v), step)
         # referential reads
         refs = model.refs()
         for (k, attr), vals in zip(mc.refattrs_of(schema), refs):
@@ -420,12 +469,14 @@ def model_line(case):
 
 
 def model_obs(case, ans):
+    if case.get('route') == 'sql':
+        return ans[case['prefix'] - 1:]      # the loaded state is the model's state after the last prefix op
     return ans
 
 
 def shrink_candidates(case):
     ops = case['ops']
-    for i in range(len(ops) - 1, -1, -1):
+    for i in range(len(ops) - 1, case.get('prefix', 0) - 1, -1):
         if ops[i][0] == 'new':
             continue          # instance numbering depends on the creation ops
         c = dict(case)
